@@ -56,11 +56,28 @@ def gen_model_(rng):
     return dict(species=list(SP), reactions=rx, parameters=params, initial_condition_dict={"A": 4, "B": 3, "C": 5})
 
 
-def one(ctx, rng, tmpdir):
+def delayed_exports(ctx, tmpdir):
+    """reactions with a delay (every delay type; reactants taken once, twice adjacent, twice interleaved, three times) next to
+    one without, written in both forms: the kinetic law is the rate of the reaction whether or not its products are delayed."""
+    delays = [("fixed", {"delay": "tau"}), ("gaussian", {"mean": "tau", "std": 0.1}), ("gamma", {"k": 2.0, "theta": "tau"}), ("none", {})]
+    reactants = [["A", "A"], ["A", "B", "A"], ["A", "B"], ["B", "B", "B"], ["C"]]
+    states = [{"A": 1.0, "B": 1.0, "C": 2.0}, {"A": 1.0, "B": 3.0, "C": 0.0}, {"A": 2.0, "B": 2.0, "C": 5.0}, {"A": 5.0, "B": 4.0, "C": 1.0}]
+    for dtype, dpar in delays:
+        rx = [(list(re), [], "massaction", {"k": "k%d" % (j % 4) if j % 2 == 0 else 0.5 + j}, dtype, [], ["C"], dict(dpar)) for j, re in enumerate(reactants)]
+        rx.append((["B", "B"], ["C"], "massaction", {"k": "k1"}))
+        params = {"k0": 0.3, "k1": 2.0, "k2": 0.02, "k3": 1.5, "tau": 0.7}
+        spec = dict(species=list(SP), reactions=rx, parameters=params, initial_condition_dict={"A": 4, "B": 3, "C": 5})
+        for stochastic in (True, False):
+            one(ctx, None, tmpdir, spec=spec, stochastic=stochastic, states=[dict(st) for st in states])
+            ctx.count("delayed_exports")
+
+
+def one(ctx, rng, tmpdir, spec=None, stochastic=None, states=None):
     from bioscrape.types import Model
     from bioscrape.simulator import ModelCSimInterface
-    spec = gen_model(rng)
-    stochastic = rng.chance(1, 2)
+    if spec is None:
+        spec = gen_model(rng)
+        stochastic = rng.chance(1, 2)
     rep = {"spec": {k: (list(v) if isinstance(v, tuple) else v) for k, v in spec.items()}, "stochastic_export": stochastic}
     ctx.begin_case(rep)
     M = Model(**spec)
@@ -76,12 +93,13 @@ def one(ctx, rng, tmpdir):
         return
     I = ModelCSimInterface(M)
     sl = M.get_species_list()
-    states = [{s: float(rng.randint(0, 7)) for s in SP} for _ in range(3)]
-    if not stochastic:
-        states.append({s: rng.choice([0.5, 1.25, 3.75]) for s in SP})
+    if states is None:
+        states = [{s: float(rng.randint(0, 7)) for s in SP} for _ in range(3)]
+        if not stochastic:
+            states.append({s: rng.choice([0.5, 1.25, 3.75]) for s in SP})
     jobs = []
     for ri, r in enumerate(sm.getListOfReactions()):
-        reac, prods, ptype, pd = spec["reactions"][ri]
+        reac, prods, ptype, pd = spec["reactions"][ri][:4]
         ctx.evaluated()
         kl = r.getKineticLaw().getMath()
         names = sbml_eval.ast_names(kl)
@@ -148,6 +166,7 @@ def run(ctx):
     with tempfile.TemporaryDirectory(prefix="verif_c14_") as d:
         for i in range(n):
             one(ctx, ctx.rng, d)
+        delayed_exports(ctx, d)
 
 
 def replay(ctx, obj):
